@@ -71,6 +71,7 @@ TRecvClosed == Ev("RecvClosed") /\ pc = "Exited" /\ outq = <<>> /\ Stutter
 TRecvNone == Ev("RecvNone") /\ pc # "Exited" /\ outq = <<>> /\ Stutter
 TScribble == Ev("Scribble") /\ Stutter
 TDeadline == Ev("Deadline") /\ Stutter
+TRejected == Ev("Rejected") /\ Stutter   \* the constructor refused the options: nothing ran
 TRelease ==
   /\ Ev("Release") /\ Keep
   /\ IF Log[l + 1].ok THEN Released ELSE pc # "RelWait" /\ UNCHANGED vars
@@ -85,7 +86,7 @@ TFinish ==
 Silent == ~skip /\ l > 0 /\ l <= Len(Log) /\ (Disc \/ TickFire) /\ UNCHANGED <<l, skip, seen, bufId>>
 
 TInit == InitWith(Dummy) /\ l = 0 /\ skip = TRUE /\ seen = {} /\ bufId = 0
-TNext == TReset \/ TSkip \/ TWrite \/ TClose \/ TRecv \/ TRecvClosed \/ TRecvNone \/ TScribble \/ TDeadline \/ TRelease
+TNext == TReset \/ TSkip \/ TWrite \/ TClose \/ TRecv \/ TRecvClosed \/ TRecvNone \/ TScribble \/ TDeadline \/ TRejected \/ TRelease
          \/ TAdv \/ TStop \/ TCancel \/ TFinish \/ Silent
 TSpec == TInit /\ [][TNext]_tvars
 
